@@ -1137,6 +1137,10 @@ func (a *APK) cachedPackage(ctx context.Context, pkg InstallablePackage, cacheDi
 type apkResult struct {
 	exp *expandapk.APKExpanded
 	err error
+
+	// checksum is the ChecksumString of the handle the expansion ran for: the result (or error) was
+	// verified against, and answers, that checksum only.
+	checksum string
 }
 
 type apkCache struct {
@@ -1154,8 +1158,9 @@ func (c *apkCache) get(ctx context.Context, a *APK, pkg InstallablePackage) (*ex
 	once.(*sync.Once).Do(func() {
 		exp, err := expandPackage(ctx, a, pkg)
 		c.resps.Store(u, apkResult{
-			exp: exp,
-			err: err,
+			exp:      exp,
+			err:      err,
+			checksum: pkg.ChecksumString(),
 		})
 	})
 
@@ -1165,6 +1170,12 @@ func (c *apkCache) get(ctx context.Context, a *APK, pkg InstallablePackage) (*ex
 	}
 
 	result := v.(apkResult)
+	if result.checksum != pkg.ChecksumString() {
+		// The memo is keyed by URL only. A handle that records another checksum for the same URL (an
+		// edited lock file, a republished package) must not be answered by what was verified against
+		// the first one: expand, and verify, for this handle.
+		return expandPackage(ctx, a, pkg)
+	}
 	return result.exp, result.err
 }
 
